@@ -49,12 +49,12 @@ def call_values():
     from .checks import c17
     c17.ensure_registered()
     for i, (args, kw) in enumerate(c17.call_cases()):
-        if i % 5 == 0:
+        if i % 23 == 0:
             fn = c17.CALLABLES[i % len(c17.CALLABLES)]
             yield 'call', c17.Spec(fn[1], args, kw, bool(i % 2))
     n = 0
     for (lib, mk, fields, variant, idx) in c17.class_cases():
-        if idx % 7:
+        if idx % 29:
             continue
         try:
             cls = mk(fields, variant, idx)
@@ -110,10 +110,21 @@ def quote_mix_values():
             continue
         seen.add(s)
         yield 'quotes', [s]
-        yield 'quotes', {'k': s}
-        yield 'quotes', (s.encode(), 1)
+        if len(seen) % 3 == 0:
+            yield 'quotes', {'k': s}
+            yield 'quotes', (s.encode(), 1)
 
 
 def everything(tree_nodes):
     fixtures.register()
     return itertools.chain(builtin_trees(tree_nodes), scaled_values(), string_placements(), quote_mix_values(), stdlib_values(), subclass_values(), commented_values(), call_values())
+
+
+_MATERIALISED = {}
+
+
+def materialised(tree_nodes):
+    """The corpus as a list, built once (in the master, before the workers are forked)."""
+    if tree_nodes not in _MATERIALISED:
+        _MATERIALISED[tree_nodes] = list(everything(tree_nodes))
+    return _MATERIALISED[tree_nodes]
